@@ -624,6 +624,56 @@ def fuzz_inputs(rng):
         if rng.random() < 0.7:
             me = 0
             aeq = np.zeros((0, n))
+    if n >= 2 and rng.random() < 0.05:
+        # structured family: the first CG move (along u = (0.6, 0.8), with
+        # non-positive curvature) hits a bound a few ulps BEFORE the
+        # trust-region boundary; the restart direction points back inside
+        # (gradient component flipped by an off-diagonal Hessian entry) with
+        # zero curvature, so the step length is decided by the root of the
+        # trust-region equation from a point within 1e-15 of the boundary
+        tags.append("near_boundary_restart")
+        gam = float(rng.choice([0.5, 1.0, 2.0, 1e-3, 1e3]))
+        delta = float(scale * rng.choice([0.5, 1.0, 2.0]))
+        u = np.zeros(n)
+        i0, i1 = (0, 1) if rng.random() < 0.5 else (1, 0)
+        u[i0], u[i1] = 0.6, 0.8
+        g = -gam * u
+        hh = 1.34 * gam / delta * rng.uniform(1.5, 3.0)
+        aa = 2.67 * hh * rng.uniform(1.2, 2.0)
+        h = np.zeros((n, n))
+        h[i0, i0] = -aa
+        h[i0, i1] = h[i1, i0] = hh
+        xl = np.full(n, -np.inf)
+        xu = np.full(n, np.inf)
+        xu[i0] = 0.6 * delta * (1.0 - int(rng.integers(1, 9)) * EPS)
+        m = 0
+        aub = np.zeros((0, n))
+        bub = np.zeros(0)
+        me = 0
+        aeq = np.zeros((0, n))
+    if n >= 2 and rng.random() < 0.05:
+        # structured family: exact floating-point tie between the step length
+        # to a linear inequality and to the trust-region boundary (no bound
+        # involved), with a Hessian that pushes the boundary improvement
+        # across that inequality
+        tags.append("ub_tr_tie")
+        gam = float(rng.choice([0.5, 1.0, 2.0]))
+        delta = float(rng.choice([0.5, 1.0, 2.0, 4.0]))
+        g = np.zeros(n)
+        g[0] = -gam
+        h = np.zeros((n, n))
+        hh = -gam / delta * float(rng.choice([0.25, 0.5, 1.0, 2.0]))
+        h[0, 1] = h[1, 0] = hh
+        if rng.random() < 0.5:
+            h[1, 1] = -abs(hh) * float(rng.choice([0.0, 0.5, 1.0]))
+        xl = np.full(n, -np.inf)
+        xu = np.full(n, np.inf)
+        m = 1
+        aub = np.zeros((1, n))
+        aub[0, 0] = aub[0, 1] = 1.0
+        bub = np.array([delta])
+        me = 0
+        aeq = np.zeros((0, n))
     bubn = rng.standard_normal(m) * scale
     beq = rng.standard_normal(me) * scale
     const = float(rng.standard_normal()) if rng.random() < 0.35 else 0.0
